@@ -80,6 +80,17 @@ Section WithHashes.
   (* ---- the receiver's view of the special binding message ---- *)
   Variable aes_dec : list Z -> list Z -> list Z.
 
+  (* AES-IGE decryption transcribed from the mode's definition (independently of the model of
+     github.com/gotd/ige):  p_i = D (c_i xor p_(i-1)) xor c_(i-1),  iv = c_0 + p_0 (16 bytes each),
+     written as a left-to-right pass carrying (c_(i-1), p_(i-1)) and the output so far *)
+  Definition xor (a b : list Z) : list Z := map (fun q => Z.lxor (fst q) (snd q)) (combine a b).
+  Definition ige_step (D : list Z -> list Z) (st : list Z * list Z * list Z) (c_i : list Z) : list Z * list Z * list Z :=
+    let '(c_prev, p_prev, out) := st in
+    let p_i := xor (D (xor c_i p_prev)) c_prev in
+    (c_i, p_i, out ++ p_i).
+  Definition ige_decrypt (D : list Z -> list Z) (iv data : list Z) : list Z :=
+    snd (fold_left (ige_step D) (chunks16 data) (substr iv 0 16, skipn 16 iv, [])).
+
   Record bound := { bd_msg_id : Z; bd_seq_no : Z; bd_nonce : Z; bd_temp_key_id : Z; bd_perm_key_id : Z;
                     bd_temp_session : Z; bd_expires : Z }.
 
@@ -95,7 +106,7 @@ Section WithHashes.
     let data := skipn 24 encrypted_message in
     if negb (bytes_eqb kid perm_key_id) then Err EKeyId else
     if negb (Nat.eqb (length data mod 16) 0) then Err EAlign else
-    let pt := ige_dec_raw (aes_dec (aes_key_v1 perm_key mk 0)) (aes_iv_v1 perm_key mk 0) data in
+    let pt := ige_decrypt (aes_dec (aes_key_v1 perm_key mk 0)) (aes_iv_v1 perm_key mk 0) data in
     let msg_len := s32 pt 28 in
     if (msg_len <? 0) || (Z.of_nat (length pt) - 32 <? msg_len) || (15 <? Z.of_nat (length pt) - 32 - msg_len)
     then Err EBind else
